@@ -97,6 +97,11 @@ impl<R: Read + Seek> ReadBox<&mut R> for StblBox {
                     "stbl box contains a box with a larger size than it",
                 ));
             }
+            if s == 0 {
+                return Err(Error::InvalidData(
+                    "stbl box contains a box with size 0",
+                ));
+            }
 
             match name {
                 BoxType::StsdBox => {
